@@ -857,6 +857,7 @@ def try_edges(body, value_locals):
     def through(cs):
         return cs.fn in AWAIT_PLUMBING or cs.fn in RESULT_ADAPTERS or cs.fn == "core::ops::try_trait::Try::branch"
     carried = forward_locals(body, value_locals, through)
+    # references to the carried value (`&res`) are carried too (forward_locals follows `ref`)
     out = []
     for i, b in enumerate(body.blocks):
         if b.get("cleanup"):
@@ -884,6 +885,48 @@ def try_edges(body, value_locals):
             elif nm in ("Err", "Break", "None", "Pending"):
                 err.append(tgt)
         out.append({"bb": i, "adt": adt, "ok": ok, "err": err, "otherwise": t["otherwise"], "names": names})
+    # `if res.is_ok() { .. }` / `is_err` / `is_some` / `is_none`: a bool test of the same value
+    for cs in body.calls:
+        if cs.fn in ("core::result::Result::is_ok", "core::result::Result::is_err", "core::option::Option::is_some", "core::option::Option::is_none") \
+                and cs.args and op_local(cs.args[0]) in carried and cs.dest is not None:
+            positive = cs.fn.endswith(("is_ok", "is_some"))
+            # switches on the returned bool (through moves and `!`)
+            cur = {cs.dest["l"]: False}
+            changed = True
+            while changed:
+                changed = False
+                for b2 in body.blocks:
+                    if b2.get("cleanup"):
+                        continue
+                    for st in b2["stmts"]:
+                        if st["s"] != "assign" or st["lhs"]["p"] or st["lhs"]["l"] in cur:
+                            continue
+                        rv = st["rv"]
+                        if rv["k"] == "use" and op_local(rv["op"]) in cur and not op_place(rv["op"])["p"]:
+                            cur[st["lhs"]["l"]] = cur[op_local(rv["op"])]
+                            changed = True
+                        elif rv["k"] == "unop" and rv["op"] == "Not" and op_local(rv["a"]) in cur:
+                            cur[st["lhs"]["l"]] = not cur[op_local(rv["a"])]
+                            changed = True
+            for i, b2 in enumerate(body.blocks):
+                t = b2["term"]
+                if b2.get("cleanup") or t["t"] != "switch" or op_local(t["discr"]) not in cur:
+                    continue
+                neg = cur[op_local(t["discr"])]
+                f_t = None
+                t_t = t["otherwise"]
+                for v, tg in t["arms"]:
+                    if v == 0:
+                        f_t = tg
+                    elif v == 1:
+                        t_t = tg
+                if f_t is None:
+                    f_t = t["otherwise"]
+                if neg:
+                    t_t, f_t = f_t, t_t
+                ok_t, err_t = (t_t, f_t) if positive else (f_t, t_t)
+                out.append({"bb": i, "adt": "core::result::Result" if "result" in cs.fn else "core::option::Option", "ok": [ok_t], "err": [err_t],
+                            "otherwise": t["otherwise"], "names": {}})
     return out
 
 
